@@ -36,6 +36,7 @@ type c05World struct {
 	roots  map[int64][]byte
 	latest int64
 	prt    *merkle.ProofRuntime
+	fuzz   func(nops int) (which, pos, bit int) // thorough tier: draws a byte-flip position
 }
 
 func c05KeyPath(store string, key []byte) string {
@@ -433,7 +434,8 @@ func (w *c05World) soundness(q *c05Query, ops []merkle.ProofOp, root []byte) {
 
 	// 3. unchanged proof, altered statement: root, key, value, kind of proof
 	w.mustReject(q, "C05/alter/root-accepted", "root hash bit flipped", ops, c05Flip(root), kp, q.value, !present)
-	for v, r := range w.roots {
+	for v := int64(1); v <= w.latest; v++ {
+		r := w.roots[v]
 		if v != q.ver && !bytes.Equal(r, root) {
 			w.mustReject(q, "C05/alter/root-of-other-version-accepted", fmt.Sprintf("verified against the commit hash of v%d", v), ops, r, kp, q.value, !present)
 		}
@@ -480,6 +482,45 @@ func (w *c05World) soundness(q *c05Query, ops []merkle.ProofOp, root []byte) {
 	}
 	// key path altered, op untouched
 	w.mustReject(q, "C05/alter/key-path-accepted", "key path names key+00", ops, root, c05KeyPath(q.sub.name, append(append([]byte{}, q.key...), 0x00)), q.value, !present)
+
+	// 3b. thorough tier only: raw byte flips of the encoded ops. A flipped byte may be non-semantic, so the oracle
+	// is: if the flipped proof still verifies, its decoded-and-re-encoded content must equal the honest one.
+	if harness.Thorough() && w.fuzz != nil {
+		for n := 0; n < 24; n++ {
+			which, pos, bit := w.fuzz(len(ops))
+			alt := []merkle.ProofOp{ops[0], ops[1]}
+			data := append([]byte{}, alt[which].Data...)
+			if len(data) == 0 {
+				continue
+			}
+			data[pos%len(data)] ^= 1 << (bit % 8)
+			alt[which].Data = data
+			c.AddExtra("byte_flips_checked", 1)
+			if w.verify(alt, root, kp, q.value, !present) != nil {
+				continue
+			}
+			same := false
+			_, _ = guard(func() {
+				if which == 0 {
+					p, isV := c05DecodeIAVL(alt[0])
+					hp, _ := c05DecodeIAVL(ops[0])
+					same = isV == present && bytes.Equal(c05EncodeIAVL(q.key, p, present).Data, c05EncodeIAVL(q.key, hp, present).Data)
+				} else {
+					// the substore CommitID.Version is not hashed by design: compare names and hashes only
+					a, b := c05DecodeMulti(alt[1]), c05DecodeMulti(ops[1])
+					same = len(a.Proof.StoreInfos) == len(b.Proof.StoreInfos)
+					for i := 0; same && i < len(a.Proof.StoreInfos); i++ {
+						same = a.Proof.StoreInfos[i].Name == b.Proof.StoreInfos[i].Name &&
+							bytes.Equal(a.Proof.StoreInfos[i].Core.CommitID.Hash, b.Proof.StoreInfos[i].Core.CommitID.Hash)
+					}
+				}
+			})
+			if !same {
+				c.Violation("C05/fuzz/byte-flip-accepted-with-different-content",
+					"store %s v%d key %x: op #%d data byte %d bit %d flipped, proof still verifies but decodes to different content", q.sub.name, q.ver, q.key, which, pos%len(data), bit%8)
+			}
+		}
+	}
 
 	// 4. adversarial constructions built on the "second child hash" alteration (several fields at once): a forged
 	// leaf hung under an inner node of the honest left path that already has its Left hash set
@@ -544,7 +585,7 @@ func TestC05(t *testing.T) {
 			"swapped op) is re-encoded and must be rejected, as must the unchanged proof with altered root / other version's root / value / key / key path, "+
 			"existence offered as absence and vice versa, an absence proof replayed for every present key, and two forged proofs built from the "+
 			"second-child alteration. non-trivial = examined tree has >=3 leaves and a verified absent key strictly between two leaves or outside both ends",
-		map[string]float64{"absent-between": 0.5, "absent-before-first": 0.5, "absent-after-last": 0.5, "present": 0.7, "absent-empty-store": 0.1,
+		map[string]float64{"absent-between": 0.5, "absent-before-first": 0.5, "absent-after-last": 0.5, "present": 0.7, "absent-empty-store": 0.05,
 			"single-key-store": 0.1, "two-leaf-absence-proof": 0.4, "ff-keys": 0.05, "forge-attempted": 0.25},
 		func(rt *rapid.T, c *harness.Case) {
 			w := &c05World{c: c, roots: map[int64][]byte{}, prt: rootmulti.DefaultProofRuntime()}
@@ -680,6 +721,9 @@ func TestC05(t *testing.T) {
 						w.query(q, v)
 					}
 				}
+			}
+			w.fuzz = func(nops int) (int, int, int) {
+				return rapid.IntRange(0, nops-1).Draw(rt, "flip-op"), rapid.IntRange(0, 4095).Draw(rt, "flip-pos"), rapid.IntRange(0, 7).Draw(rt, "flip-bit")
 			}
 			// soundness battery on 4 drawn verified queries: 2 present and 2 absent keys when available
 			var presentPool, absentPool []verified
